@@ -1,26 +1,25 @@
 #!/bin/bash
 # usage: check_benign.sh [name ...]   e.g. C14-b
-# Applies each behaviour-preserving refactoring benign/<name>/refactorN.diff to /repo (temporarily), runs every
-# quick check (expects silence: any VIOLATION is a false alarm of the machinery), reverts. Evidence goes to a scratch dir.
+# Each behaviour-preserving refactoring benign/<name>/refactorN.diff is applied to a scratch copy of /repo's sources
+# (outside /repo and /verif, removed afterwards) and every quick check is run on the copy: silence is expected, any
+# VIOLATION is a false alarm of the machinery (benign/KNOWN_LIMITS.json lists the stated limits). /repo is not touched.
 set -u
 export GOFLAGS=-mod=mod GOPROXY=off GOSUMDB=off GOTOOLCHAIN=local GOWORK=off
-names=${*:-$(ls /verif/benign)}
-scratch=$(mktemp -d /tmp/benign-verif.XXXXXX)
-cp /verif/known_findings.jsonl $scratch/; cp -r /verif/variants $scratch/ 2>/dev/null
+names=${*:-$(ls /verif/benign | grep -v KNOWN)}
 rc=0
 for name in $names; do
 for d in /verif/benign/$name/refactor*.diff; do
   [ -f "$d" ] || continue
   echo "=== $d"
-  git -C /repo apply "$d" || { echo "does not apply"; rc=1; continue; }
-  (cd /repo && go build ./... ) || echo "BUILD FAILS"
-  cd /verif
-  printf '%s\n' C01 C02 C03 C04 C05 C06 C07 C08 C09 C10 C11 C12 C13 C14 C15 C16 C17 C18 C19 C20 | xargs -P 10 -I{} sh -c \
-    'out=$(./bin/xcheck -prop {} -verif '$scratch' 2>&1); if echo "$out" | grep -q "^VIOLATION\|^CHECKER"; then echo "{} ALARM: $(echo "$out" | grep -E "^(VIOLATED|UNDECIDED|CHECKER)" | head -4 | cut -c1-300)"; fi' | sort | tee -a $scratch/alarms
-  git -C /repo checkout -- . ; git -C /repo clean -fdq -- '*.go' 2>/dev/null
+  scratch=$(mktemp -d /tmp/benign-run.XXXXXX)
+  rsync -a --exclude .git /repo/ $scratch/src/
+  mkdir -p $scratch/verif; cp /verif/known_findings.jsonl $scratch/verif/
+  if ! (cd $scratch/src && patch -p1 -s --no-backup-if-mismatch -i "$d"); then echo "does not apply"; rm -rf $scratch; rc=1; continue; fi
+  (cd $scratch/src && go build ./... ) || echo "BUILD FAILS"
+  alarms=$(cd /verif && printf '%s\n' C01 C02 C03 C04 C05 C06 C07 C08 C09 C10 C11 C12 C13 C14 C15 C16 C17 C18 C19 C20 | xargs -P 10 -I{} sh -c \
+    'out=$(./bin/xcheck -prop {} -repo '$scratch'/src -verif '$scratch'/verif 2>&1); if echo "$out" | grep -q "^VIOLATION\|^CHECKER"; then echo "{} ALARM: $(echo "$out" | grep -E "^(VIOLATED|UNDECIDED|CHECKER)" | head -4 | cut -c1-300)"; fi' | sort)
+  [ -n "$alarms" ] && { echo "$alarms" | sed "s#$scratch/src/##g"; rc=1; }
+  rm -rf $scratch
 done
 done
-[ -s $scratch/alarms ] && rc=1
-rm -rf $scratch
-git -C /repo status --short | head
 exit $rc
